@@ -457,6 +457,21 @@ def spec_equal(ctx, rule, key, loc, got_keys, specname, what, columns_reset=Fals
         i = next(j for j in range(len(g)) if g[j] != w[j])
         ctx.violation(rule, key, loc, f"{what}: same expression as the specification spec/dense.py:{specname} except for a comparison operator or an integer constant", found=g[i][:300], expected=w[i][:300])
         return
+    import re as _re
+
+    # one shape that is decided although it is not the specification's: the anomaly labels taken by POSITION in the sorted
+    # distinct values (`np.unique(v)[1:]`, element u[i + 1]) instead of by a test against 0.  [1:] drops the smallest
+    # value, which is the normal label 0 only if some cell is normal: when every cell belongs to an anomaly the first
+    # anomaly is dropped
+    guarded = False
+    cls_ = next((c for c in ctx.P.classes.values() if c.name == key.split("|")[0]), None)
+    f_ = cls_.methods.get("dense_to_sparse") if cls_ is not None else None
+    if f_ is not None:
+        tests = [ast.unparse(n.test) for n in ast.walk(f_.node) if isinstance(n, (ast.If, ast.IfExp))]
+        guarded = any("[0]" in t and any(w in t for w in ("== 0", "!= 0", "> 0", "<= 0", "< 1", ">= 1")) for t in tests)
+    if not guarded and any(_re.search(r"idx\(unique\(.*?\), \(\(at, lv \+ \d+\)\)\)", k) for k in g) and not any("cmp<" in k or "cmp>" in k or "cmp!=" in k for k in g):
+        ctx.violation(rule, key, loc, f"{what}: the labels are taken by position in the sorted distinct values (unique(...)[1:]) instead of by a test against 0 - with no normal cell in the dense output the smallest label is an anomaly and is dropped", found=(g[0] if g else "nothing")[:200], expected="labels[labels > 0]")
+        return
     ctx.undecided(rule, key, loc, f"{what}: the positions are computed by an expression of another shape than spec/dense.py:{specname} (not comparable)", found=(g[0] if g else "nothing")[:200])
 
 
